@@ -178,6 +178,14 @@ class DirectoryResourcePopulator:
                             and handle is handle.parent.handles.maps[0].get(
                                 handle.key)):
                             handle.parent.handles.maps.insert(0, {})
+                    else:
+                        # Without nesting the new handle replaces the
+                        # visible one, which may sit in a lower layer
+                        handle = resource_map.get(resource_string)
+                        if isinstance(handle, Handle):
+                            for layer in handle.parent.handles.maps:
+                                if layer.get(handle.key) is handle:
+                                    del layer[handle.key]
 
                 if new_resource is not None:
                     resource_map[resource_string] = new_resource
